@@ -196,6 +196,12 @@ func (pc *PConn) HalfCloseToServer() {
 	}
 }
 
+// InjectEmptyToServer makes the server receive an empty (zero-length, final, masked) text frame from its peer.
+func (pc *PConn) InjectEmptyToServer() {
+	pc.p.rec.Emit("WireNote", "conn", pc.ID, "note", "empty text frame injected", "dir", "c2s")
+	pc.s.Write([]byte{0x81, 0x80, 1, 2, 3, 4})
+}
+
 // BlackholeDir swallows one direction only: a half-open link (the other direction keeps being delivered).
 func (pc *PConn) BlackholeDir(dir int) {
 	pc.mu.Lock()
